@@ -141,6 +141,10 @@ inductive Op where
   | addFileAs (path url : Bytes)
   | addFilesAs (indir to : Bytes) (entries : List Entry)
   | addFileData (path data : Bytes)
+  /-- a call whose directory could not be listed / whose file could not be opened: the line for the path
+  is printed first (every call prints before it looks), then the call returns `Err` and adds nothing.
+  What the build script does with the error (stop, or go on) is the script's business. -/
+  | failed (static : Bool) (path : Bytes)
 
 structure Build where
   out : Log
@@ -226,6 +230,9 @@ def Build.step (feat : MimeFeature) (outdir : Bytes) (b : Build) : Op → Build
     match b.statics with
     | some s => { b with statics := some (s.addHashed uniEsc uniAlnum path data (.data data)) }
     | none => b
+  | .failed static path =>
+    let b := if static then b.withStatics feat else b
+    { b with out := (b.out.read path).print (str "cargo:rerun-if-changed=" ++ path) }
 
 /-- the two `Drop`s: `statics.rs` first, then the closing brace and `templates.rs` -/
 def Build.finish (outdir : Bytes) (b : Build) : Log :=
